@@ -29,6 +29,17 @@ class C01(Prop):
         for _ in range(ntrees):
             root = rng.choice(["dict", "dict", "list"])
             t = X.gen_tree(rng, 4, root=root)
+            if rng.random() < 0.2:
+                # two containers with equal content at different places (identical order lines, equal matrix rows):
+                # equal is not identical - both are enumerated, both resolve
+                conts = [(p, v) for p, v in X.node_paths(t) if isinstance(v, (dict, list)) and v]
+                if conts:
+                    p, v = rng.choice(conts)
+                    par = X.plain_get(t, p[:-1])
+                    if isinstance(par, list):
+                        par.insert(rng.randint(0, len(par)), copy.deepcopy(v))
+                    else:
+                        par["twin"] = copy.deepcopy(v)
             mode = rng.choice(["convert", "convert", "wrap", "json"])
             if root == "dict":
                 out.append({"stream": "enum", "tag": "enum:" + mode, "input": {"tree": t, "mode": mode}})
